@@ -11,7 +11,7 @@ from .base import Base, bump
 from ..core import hx
 
 LOC_POOL = ["en", "pl", "de", "fr"]
-ID_POOL = ["a", "b", "c", "d", "e"]
+ID_POOL = ["a", "b", "c", "d", "e", "A", "B"]       # `a`/`A`, `b`/`B`: ids that differ only in ASCII case are DIFFERENT ids
 MUTATORS = ("add", "addm", "rm", "rmm", "rmp", "chg", "async")
 NEED_BUNDLES = ("pfs", "pfa", "bun", "req", "hold")
 
